@@ -434,6 +434,11 @@ class SimCluster(object):
         act = rule["act"] if rule is not None else None
         if act == "garbage":
             raw = _garble(raw, self.rng, rule.get("mode", "flip"))
+            if entry["key"] == kwire.API_VERSIONS and _outside_advertised_domain(raw):
+                # the damage happens to read as a complete, error-free version table naming a negative or missing maximum
+                # for produce or fetch: no broker advertises that (C04 quantifies over minimum 0, maximum >= 2), and a
+                # client following it is not at fault - the answer is cut short instead, which no decoder accepts
+                raw = raw[:4 + (len(raw) - 4) // 2]
         framed = struct.pack(">I", len(raw)) + raw
         delay = 0.0
         if rule is not None and rule.get("delay"):
@@ -885,6 +890,22 @@ def _brief_resp(key, body):
     except Exception:
         pass
     return ""
+
+
+def _outside_advertised_domain(raw):
+    """True when ``raw`` (correlation id + ApiVersions v0 body) parses completely, without error code, to a table
+    whose produce or fetch entry is absent, starts above 0 or ends below 2."""
+    body = raw[4:]
+    if len(body) < 6:
+        return False
+    err, n = struct.unpack(">hi", body[:6])
+    if err != 0 or n < 0 or len(body) != 6 + 6 * n:
+        return False
+    table = {}
+    for i in range(n):
+        k, lo, hi = struct.unpack(">hhh", body[6 + 6 * i:12 + 6 * i])
+        table[k] = (lo, hi)
+    return any(k not in table or table[k][0] != 0 or table[k][1] < 2 for k in (0, 1))
 
 
 def _garble(raw, rng, mode):
